@@ -1,6 +1,7 @@
 (* G-prog: type-directed generation of gram source programs together with their intended type
-   (DESIGN appendix A). Programs are built as a named AST and printed with explicit parentheses
-   around every non-atomic operand. *)
+   (DESIGN appendix A). Programs are built as a named AST and printed with parentheses around every
+   non-atomic operand except inside operator chains, which are written bare where the grammar's
+   precedence and left associativity give the intended tree. *)
 
 type ty =
   | Int | Bool | Type
@@ -42,7 +43,14 @@ let rec print (b : Buffer.t) (s : src) : unit =
         p x; (match an with Some a -> (p " : "; op a) | None -> ()); p " = "; print b d; p "; ") ds;
     print b body
   | SNeg x -> p "-"; op x
-  | SBin (o, x, y) -> op x; p " "; p o; p " "; op y
+  | SBin (o, x, y) ->
+    (* operator chains as one writes them: a left operand of the same or a tighter level, and a right
+       operand of a tighter level, stand bare (`a - b - c`, `a * b + c`, `a + b < c`); everything else is
+       parenthesised *)
+    let prec = function "+" | "-" -> 1 | "*" | "/" -> 2 | _ -> 0 in
+    let bare_left = (match x with SBin (o2, _, _) -> prec o2 >= 1 && prec o2 >= prec o | SApp _ -> true | _ -> false) in
+    let bare_right = (match y with SBin (o2, _, _) -> prec o2 >= 1 && prec o2 > prec o | SApp _ -> true | _ -> false) in
+    (if bare_left then print b x else op x); p " "; p o; p " "; (if bare_right then print b y else op y)
   | SIf (c, x, y) -> p "if "; print b c; p " then "; print b x; p " else "; print b y
 and print_jumbo b a = match a with SLet _ -> (Buffer.add_string b "("; print b a; Buffer.add_string b ")") | _ -> print b a
 
@@ -167,7 +175,15 @@ let rec gen (r : Rng.t) (m : mode) (e : env) (t : ty) (size : int) : src =
         | 0 -> SInt | 1 -> SBool | 2 -> SType
         | _ -> (match e.aliases with [] -> SInt | al -> SVar (fst (Rng.pick r al))))
     else begin
-      match Rng.int r 8 with
+      let universes = List.filter (fun (_, t') -> t' = Type) e.aliases in
+      match Rng.int r 10 with
+      | 8 | 9 when universes <> [] || Rng.chance r 1 3 ->
+        (* a function type whose codomain is its own bound variable (or built from it): the codomain's type is the
+           variable's declared type, itself possibly a name for `type` *)
+        let t = fresh_name e "t" in
+        let dom = (match universes with [] -> SType | us -> if Rng.chance r 3 4 then SVar (fst (Rng.pick r us)) else SType) in
+        SPi (t, false, dom, (match Rng.int r 3 with 0 -> SArrow (SVar t, SVar t) | _ -> SVar t))
+      | 8 | 9 -> g Type 1
       | 0 | 1 -> SArrow (g Type (size / 2), g Type (size / 2))
       | 2 -> let x = fresh_name e "t" in
         SPi (x, Rng.chance r 1 5, g Type (size / 2), gen r m { e with vars = e.vars } Type (size / 2))
@@ -255,7 +271,7 @@ and gen_group r m e t size =
        let a = fresh_name e "a" in
        let target = (match !e'.aliases with
            | (_ :: _) as al when Rng.chance r 1 2 -> snd (Rng.pick r al)
-           | _ -> Rng.pick r [ Int; Bool; Arrow (Int, Int) ]) in
+           | _ -> Rng.pick r [ Int; Bool; Arrow (Int, Int); Type ]) in
        let ann = if Rng.int r 10 < m.annot_num then Some SType else None in
        let same = List.filter (fun (_, t') -> t' = target) !e'.aliases in
        let rhs = if same <> [] && Rng.chance r 1 2 then SVar (fst (Rng.pick r same)) else src_of_ty target in
@@ -290,7 +306,7 @@ and gen_group r m e t size =
        e' := { !e' with aliases = (a2, target) :: (a1, target) :: !e'.aliases; vars = (v2, target) :: (v1, target) :: !e'.vars }
      | _ ->
        let x = fresh_name e "v" in
-       let dt = Rng.pick r [ Int; Int; Bool; Arrow (Int, Int); Arrow (Int, Bool) ] in
+       let dt = Rng.pick r [ Int; Int; Bool; Arrow (Int, Int); Arrow (Int, Bool); Type ] in
        (* one time in five the definition is just another variable of that type (whose own type may be written
           through a different alias) *)
        let d = (match vars_of !e' dt with
@@ -307,9 +323,22 @@ and gen_group r m e t size =
        e' := { !e' with vars = (x, dt) :: !e'.vars });
     incr i
   done;
-  (* sometimes the body is just one of the group's variables of the right type *)
+  (* sometimes the body is just one of the group's variables of the right type; sometimes it calls one of the
+     group's functions from inside the BODY of a nested one-definition group that sits under an operator or
+     a condition (substitution into a nested group's body, with forward references still to be unfolded) *)
+  let group_funs = List.filter_map (fun (x, _, _) -> match List.assoc_opt x !e'.vars with
+      | Some (Arrow (Int, rt)) when rt = Int || rt = Bool -> Some (x, rt) | _ -> None) !defs in
   let body = (match List.filter (fun (x, t') -> t' = t && List.exists (fun (y, _, _) -> y = x) !defs) !e'.vars with
       | (_ :: _) as vs when Rng.chance r 1 3 -> SVar (fst (Rng.pick r vs))
+      | _ when group_funs <> [] && Rng.chance r 1 3 ->
+        let (f, rt) = Rng.pick r group_funs in
+        let k = fresh_name e "k" in
+        let ann = if Rng.int r 10 < m.annot_num then Some SInt else None in
+        let nested = SLet ([ (k, ann, SLit (string_of_int (Rng.int r 6))) ], SApp (SVar f, SVar k)) in
+        (match rt, t with
+         | Bool, _ -> SIf (nested, gen r m !e' t (per / 2), gen r m !e' t (per / 2))
+         | _, Int -> SBin (Rng.pick r [ "+"; "-"; "*" ], nested, gen r m !e' Int (per / 2))
+         | _, _ -> SIf (SBin ("<=", nested, SLit "1"), gen r m !e' t (per / 2), gen r m !e' t (per / 2)))
       | _ -> gen r m !e' t per) in
   SLet (List.rev !defs, body)
 
